@@ -102,6 +102,7 @@ fn main() {
             }
             #[cfg(feature = "std-build")]
             facts!(8, unimock::mock::std::process::TerminationMock::report);
+            facts!(9, PMock::mt);
             #[cfg(feature = "dtrait")]
             {
                 facts!(10, DMock::r0);
